@@ -351,6 +351,8 @@ _BINNAMES = {"AddWithOverflow": "add", "SubWithOverflow": "sub", "MulWithOverflo
              "Lt": "lt", "Le": "le", "Gt": "gt", "Ge": "ge", "Eq": "eq", "Ne": "ne", "BitAnd": "bitand", "BitOr": "bitor", "BitXor": "bitxor", "Shl": "shl", "Shr": "shr"}
 
 
+NEW_ADTS = set()     # ADTs introduced after the review (engine/inline.py new_adts): rendered positionally, like the tuple they replace
+
 _PATH = None     # (fn, [blocks]) while bool_paths evaluates one concrete path: multi-definition locals resolve to the definition on it
 
 
@@ -544,7 +546,7 @@ def expr_tree(prog, f, o, depth=0, seen=None, inline=0):
             continue
         if "f" in e:
             if not _wrapper_owner(e.get("o")):
-                flds.append(e["n"] if e.get("n") else str(e["f"]))
+                flds.append(str(e["f"]) if e.get("o") in NEW_ADTS else (e["n"] if e.get("n") else str(e["f"])))
         elif "i" in e:
             flds.append("[%s]" % _local_tree(prog, f, e["i"], [], depth + 1, seen, inline))
         elif "ci" in e:
@@ -636,7 +638,7 @@ def _local_tree_defs(prog, f, l, flds, depth, seen, inline, defs):
         s = f.blocks[bi]["s"][si]
         if s["d"].get("p"):
             # partial (field) write into the local: only relevant when we are reading that field
-            wf = [e["n"] if e.get("n") else str(e["f"]) for e in s["d"]["p"] if isinstance(e, dict) and "f" in e]
+            wf = [(str(e["f"]) if e.get("o") in NEW_ADTS else (e["n"] if e.get("n") else str(e["f"]))) for e in s["d"]["p"] if isinstance(e, dict) and "f" in e]
             if flds[:len(wf)] != wf:
                 continue
         outs.append(rvalue_tree(prog, f, s["v"], flds, depth, seen, inline))
@@ -662,11 +664,15 @@ def rvalue_tree(prog, f, v, flds=(), depth=0, seen=frozenset(), inline=0):
     if r == "un":
         return "%s(%s)" % (v["op"].lower(), expr_tree(prog, f, v["a"][0], depth + 1, seen, inline))
     if r == "agg":
+        if flds and v.get("ak") == "adt" and v.get("adt") in NEW_ADTS and flds[0].isdigit() and int(flds[0]) < len(v["a"]):
+            return expr_tree(prog, f, v["a"][int(flds[0])], depth + 1, seen, inline) + _sfx(flds[1:])
         if flds and v.get("ak") == "adt" and flds[0] in (v.get("fields") or []):
             return expr_tree(prog, f, v["a"][v["fields"].index(flds[0])], depth + 1, seen, inline) + _sfx(flds[1:])
         if flds and v.get("ak") == "tuple" and flds[0].isdigit() and int(flds[0]) < len(v["a"]):
             return expr_tree(prog, f, v["a"][int(flds[0])], depth + 1, seen, inline) + _sfx(flds[1:])
         nm = (v.get("adt") or v.get("ak") or "agg").split("::")[-1] + ("::" + v["variant"] if v.get("variant") else "")
+        if v.get("ak") == "adt" and v.get("adt") in NEW_ADTS:
+            nm = "tuple"
         caps = [expr_tree(prog, f, a, depth + 1, seen, inline) for a in v["a"]]
         if nm.startswith("AnchorError") and "error_code_number" in (v.get("fields") or []):
             # err!(X): only the error code matters (the origin carries file/line, which must not enter any key)
@@ -862,6 +868,25 @@ def _path_cond(prog, f, blocks, b, arm):
     m = re.fullmatch(r"(-?\d+) == (-?\d+)", c)
     if m:
         return None if m.group(1) == m.group(2) else False
+    # the discriminant of a value that is a freshly built wrapper on this path is known: `Ok(x)?` / `Some(x)?` continue (0), `Err(e)?` /
+    # `None?` break (1); a direct match on the wrapper sees its own variant index
+    m = re.fullmatch(r"discr\((Result::Ok|Result::Err|Option::Some|Option::None|ControlFlow::Continue|ControlFlow::Break)\{.*\}\)@(\w+) (==|notin) (.*)", c)
+    if m:
+        var, tag, op, rhs = m.groups()
+        if tag == "ControlFlow":
+            val = 0 if var in ("Result::Ok", "Option::Some", "ControlFlow::Continue") else 1
+        elif tag == "Result":
+            val = {"Result::Ok": 0, "Result::Err": 1}.get(var)
+        elif tag == "Option":
+            val = {"Option::None": 0, "Option::Some": 1}.get(var)
+        else:
+            val = None
+        if val is not None:
+            if op == "==" and re.fullmatch(r"-?\d+", rhs):
+                return None if int(rhs) == val else False
+            if op == "notin":
+                xs = [int(x) for x in rhs.strip("[]").split(",") if x.strip()]
+                return False if val in xs else None
     m = re.fullmatch(r"(-?\d+) notin \[(.*)\]", c)
     if m:
         return False if int(m.group(1)) in [int(x) for x in m.group(2).split(",") if x.strip()] else None
